@@ -128,6 +128,8 @@ type SchedCfg struct {
 	MaxSteps     int64    `json:"max_steps"`     // cap on scheduler decisions (0 = default)
 	StallProb    float64  `json:"stall_prob,omitempty"` // per decision: leave everything parked and let time reach the next timer
 	MaxStall     time.Duration `json:"max_stall,omitempty"`
+	StallAfterFrac float64     `json:"stall_after_frac,omitempty"` // the same as a fraction of the run's horizon (resolved by the harness)
+	StallAfter   time.Duration `json:"stall_after,omitempty"` // no stalls before this virtual instant: the budget goes to the phase under study
 	MaxStalls    int64         `json:"max_stalls,omitempty"` // budget per run (0 = unlimited): a node is slow now and then, not all the time
 	// Overlap: when goroutines are parked AND a simulation event (a delivery, a peer action) is due,
 	// the seed decides which goes first. Without it every goroutine runs until it blocks before the
@@ -431,7 +433,7 @@ func (w *World) Run(until time.Duration) {
 		w.inDriver.Store(true)
 		w.mu.Lock()
 		w.epoch++ // everything that parks before the next quiescent point is one batch (see breakTies)
-		if len(w.parked) > 0 && w.Cfg.StallProb > 0 && !w.stalled && (w.Cfg.MaxStalls == 0 || w.Stalls < w.Cfg.MaxStalls) && w.rng.Float() < w.Cfg.StallProb {
+		if len(w.parked) > 0 && w.Cfg.StallProb > 0 && !w.stalled && (w.Cfg.MaxStalls == 0 || w.Stalls < w.Cfg.MaxStalls) && (w.Cfg.StallAfter == 0 || w.Now() >= w.Cfg.StallAfter) && w.rng.Float() < w.Cfg.StallProb {
 			// stall (slow node): leave everything parked and let virtual time reach the next timer,
 			// so that a timer can fire while another goroutine is half-way through an operation.
 			now := w.Now()
